@@ -20,6 +20,19 @@ PROPS = {
             "the in-memory stream branch of recv_frame added by the hook mirrors the socket branch; the socket branch itself is exercised by the tcp op",
         ],
     },
+    "C12": {
+        "lean_modules": ["RdestModel.Props.C12"],
+        "cases": {"quick": 1500, "thorough": 60000},
+        "rule": "command histories (4..45 events, 1..4 peers, 3..14 pieces on both sides of END_GAME_LIMIT) on the real Session through the hooks: add "
+                "peer+bitfield, choke, unchoke, interested, not-interested, have, bitfield, piece done, piece cancel, kill — repeated and out of "
+                "order, but only events a connection task can emit (done/cancel need an active piece_rx, tracked from the replies; PrepareKill is "
+                "followed by the kill); after EVERY command reply + full snapshot (statuses; per peer piece_index, choked, am_interested, "
+                "interested) are compared with the model; the implementation's random pick is read from the reply and checked admissible (C13); "
+                "oracle on the implementation's own snapshot: Have absorbing, every Reserved has an unchoked peer asked for it, requests name "
+                "advertised+lacking pieces, no panic; distinct = distinct histories",
+        "assumptions": STD_ASSUME_PURE + ["addresses of live connections are distinct (a reconnect from the same ip:port before the old KillReq is handled is outside the model)",
+                                           "the connection task clears piece_rx exactly as modelled (tied by the handler-level checks C01/C10)"],
+    },
     "C13": {
         "lean_modules": ["RdestModel.Props.C13"],
         "cases": {"quick": 4000, "thorough": 150000},
